@@ -202,7 +202,9 @@ def make_body(scn):
                 eff[kind] = chi.exit_status == 7
             else:
                 eff[kind] = True
-        if user_send in (True, "send", "send_stderr"):
+        if "close" in msgs:
+            pass      # the peer closed the channel: whether the user's operation still got through is not defined
+        elif user_send in (True, "send", "send_stderr"):
             chp.settimeout(0.0)
             try:
                 eff["user-send"] = (chp.recv if user_send != "send_stderr" else chp.recv_stderr)(100) == b"user-data-during-kex"
